@@ -298,7 +298,7 @@ def judge(ctx, r, what, rep):
 def check_expand(ctx, defs):
     from adcgen import Intermediates, Expr
     rng = ctx.rng
-    t_end = time.time() + ctx.pick(600, 900)
+    t_end = time.time() + ctx.pick(110, 900)
     names = sorted(n for n in Intermediates().available if n not in ("t4_2",) and n not in defs.residuals)
     n = ctx.pick(40, 500)
     for it in range(n):
@@ -501,11 +501,11 @@ def check_factor(ctx, defs):
     from adcgen import Intermediates, Expr, factor_intermediates
     rng = ctx.rng
     n = ctx.pick(40, 300)
-    tlimit = ctx.pick(60, 120)
+    tlimit = ctx.pick(45, 120)
     quick_names = ["t2_1", "t1_2", "t2_2", "p0_2_oo", "p0_2_vv", "t2eri_3", "t2eri_5", "t2sq", "t2eri_1", "t2eri_6"]
     grid = list(grid_inputs(ctx, ["t2_1", "t2eri_3", "t2sq"] if ctx.quick() else FACTORABLE))
     grid += list(mixed_grid_inputs(ctx, ["t2_2"] if ctx.quick() else ["t2_2", "t1_2", "p0_2_oo", "p0_2_vv"]))
-    t_end = time.time() + ctx.pick(600, 1500)
+    t_end = time.time() + ctx.pick(150, 1500)
     for it in range(n + len(grid)):
         if time.time() > t_end:
             ctx.count("time_budget_reached(factor)")
@@ -662,7 +662,7 @@ def check_reduce(ctx, defs):
     from adcgen import Expr, reduce_expr
     from props.c13 import scalar_step_x
     n = ctx.pick(25, 250)
-    t_end = time.time() + ctx.pick(600, 900)
+    t_end = time.time() + ctx.pick(130, 900)
     for it in range(n):
         if time.time() > t_end:
             ctx.count("time_budget_reached(reduce)")
@@ -681,7 +681,7 @@ def check_reduce(ctx, defs):
         rep = {"kind": "reduce_expr", "expr": str(e)[:1200], "target": str(target)}
         try:
             with Recorder() as rec:
-                out = limited(ctx.pick(60, 300), lambda: reduce_expr(e.copy()))
+                out = limited(ctx.pick(45, 300), lambda: reduce_expr(e.copy()))
         except Slow:
             ctx.skip("slow reduce_expr")
             continue
